@@ -13,9 +13,15 @@ DISC = (ConnectionState.DISCONNECTED_NOCONN_TODAY, ConnectionState.DISCONNECTED_
 
 
 class Duo:
-    def __init__(self, hb=30, cj=None, sj=None, connect=True):
+    def __init__(self, hb=30, cj=None, sj=None, connect=True, start=None):
         self.w = World()
         self.hb = hb
+        if start is not None:
+            # a session that has been running: client's next outbound / inbound numbers (the server's are the mirror image)
+            a, b = start
+            cj, sj = Journaler(), Journaler()
+            cj.set_seq_num(cj.create_or_load("SRV", "CLI"), next_num_out=a, next_num_in=b)
+            sj.set_seq_num(sj.create_or_load("CLI", "SRV"), next_num_out=b, next_num_in=a)
         self.s = self.w.make_server(journal=sj if sj is not None else Journaler(), hb=hb)
         self.c = self.w.make_client(journal=cj if cj is not None else Journaler(), hb=hb)
         self.ep = {"c": self.c, "s": self.s}
